@@ -193,7 +193,63 @@ def _instance_ctx_contract(d):
 
 INSTANCE_CTX = [_instance_ctx_contract(d) for d in (1, 2, 3)]
 
-CONTRACTS = INSTANCE_CTX + [_fq_func, _fq_method, _fq_name, _fq_tree, _full_name] + PARENT + _c03.PARENT_SCOPE + [_c03._is_scope]
+# ------------------------------------------------------------------ the value (and with it the context) of a function node
+def _replay_from_context(inp):
+    """get_context / parent() inside the implementation that follows @overload declarations of the same name"""
+    from pyvc.replay import run_real
+    import jedi
+    code = ('from typing import overload\n'
+            '@overload\ndef scale(x: int) -> int: ...\n'
+            '@overload\ndef scale(x: str) -> str: ...\n'
+            'def scale(x):\n    found = x\n    return found\n'
+            'class Box:\n    @overload\n    def get(self, k: int) -> int: ...\n'
+            '    def get(self, k):\n        inner = k\n        return inner\n')
+
+    def run():
+        s = jedi.Script(code)
+        a = s.get_context(7, 6)
+        b = s.get_context(13, 10)
+        return [(a.name, a.line), (b.name, b.line), (b.parent().name, b.parent().line)]
+    out = run_real(run)
+    return {}, out
+
+
+def _from_context_contract(depth):
+    skip = 'context' + '.parent_context' * depth
+    c = Contract(
+        id='C18.FunctionValue.from_context[%d]' % depth, prop='C18',
+        clause='the value - and with it the context get_context()/parent() report - of a function node is built for THAT '
+               'node, also when same-named @overload declarations precede it (they only ride along); its parent context is '
+               'the nearest enclosing context that is neither a class nor an instance (%d skipped)' % depth,
+        file='jedi/inference/value/function.py', qualname='FunctionValue.from_context',
+        params={'cls': FnSpec('cls', params=[('inference_state', ANY), ('parent_context', Obj('FCtx')), ('tree_node', Obj('INode'))],
+                              ret=Obj('FV18'), pure=True, assumed=True, note='FunctionValue(...) constructor'),
+                'context': Obj('FCtx'), 'tree_node': Obj('INode')},
+        families=['FCtx', 'INode', 'FV18'], ret=Obj('FV18'), tier='SB',
+        bounds={'class / instance contexts skipped': depth}, unroll={0: depth + 1},
+        requires=['all(c.is_class() or c.is_instance() for c in [%s])' % ', '.join('context' + '.parent_context' * k for k in range(depth))
+                  if depth else 'True',
+                  'not (%s.is_class() or %s.is_instance())' % (skip, skip)],
+        ensures=[
+            'implies(len(_find_overload_functions(context, tree_node)) == 0 and context.is_class(), '
+            'result == MethodValue(context.inference_state, context, %s, tree_node))' % skip,
+            'implies(len(_find_overload_functions(context, tree_node)) == 0 and not context.is_class(), '
+            'result == cls(context.inference_state, %s, tree_node))' % skip,
+            'implies(len(_find_overload_functions(context, tree_node)) > 0 and context.is_class(), '
+            'wrapped_function(result) == MethodValue(context.inference_state, context, %s, tree_node))' % skip,
+            'implies(len(_find_overload_functions(context, tree_node)) > 0 and not context.is_class(), '
+            'wrapped_function(result) == cls(context.inference_state, %s, tree_node))' % skip,
+        ],
+        inline=['create'],
+        witness={}, replay=_replay_from_context, concrete_only=True, witness_library=[{}],
+        concrete_ensures=['result == [("scale", 6), ("get", 12), ("Box", 9)]'],
+    )
+    return c
+
+
+FROM_CONTEXT = [_from_context_contract(d) for d in (0, 1)]
+
+CONTRACTS = FROM_CONTEXT + INSTANCE_CTX + [_fq_func, _fq_method, _fq_name, _fq_tree, _full_name] + PARENT + _c03.PARENT_SCOPE + [_c03._is_scope]
 
 
 def _method_arguments(V, st, self_val, args, kwargs, node):
@@ -235,6 +291,20 @@ def register(reg):
                                                              ('function', Obj('FV18'))], ret=Obj('BM18'), pure=True,
                                       assumed=True)
     reg.names['method_arguments'] = FnSpec('method_arguments', impl=_method_arguments)
+    reg.add_family(Family('FCtx', attrs={'parent_context': Obj('FCtx'), 'inference_state': ANY}, methods={
+        'is_class': FnSpec('Context.is_class', ret=BOOL, pure=True), 'is_instance': FnSpec('Context.is_instance', ret=BOOL, pure=True)}))
+    reg.names['MethodValue'] = FnSpec('MethodValue', params=[('inference_state', ANY), ('class_context', Obj('FCtx')),
+                                                            ('parent_context', Obj('FCtx')), ('tree_node', _IN)],
+                                      ret=Obj('FV18'), pure=True, assumed=True)
+    reg.names['_find_overload_functions'] = FnSpec('_find_overload_functions', params=[('context', Obj('FCtx')), ('tree_node', _IN)],
+                                                   ret=Seq(_IN), pure=True, assumed=True,
+                                                   note='the preceding same-named @overload declarations (generator)')
+    reg.names['wrapped_function'] = FnSpec('wrapped_function', params=[('v', Obj('FV18'))], ret=Obj('FV18'), pure=True, assumed=True,
+                                           note='ghost: the function value an OverloadedFunctionValue wraps')
+    reg.names['OverloadedFunctionValue'] = FnSpec('OverloadedFunctionValue', params=[('function', Obj('FV18')), ('overloaded_functions', Seq(Obj('FV18')))],
+                                                  ret=Obj('FV18'), pure=True, assumed=True,
+                                                  ensures=['wrapped_function(result) == function'],
+                                                  note='ValueWrapper around `function`')
     pn = reg.families['PNode']
     pn.methods['search_ancestor'] = FnSpec('PNode.search_ancestor', params=[('a', STR), ('b', STR), ('c', STR)],
                                            ret=_PN, pure=True, assumed=True,
